@@ -358,6 +358,8 @@ EXTRA_TEXT = {
     "C06": " Lists of proofs (Verify.selectProof / verifyList): list_accepted_one_proof_bound_and_valid - a credential with any list of proofs is accepted only if one and the same proof of the requested type "
            "is bound to it and verifies over the claim it carries; list_only_first_of_type. Tie: op verify.list - lists mixing a bound-but-unsigned proof, a genuine proof of another credential and a proof of "
            "another type, in several orders, against the real VerifyProof.",
+    "C12": " applyTypes_fails_at_any_position / doc_path_context_failure_is_error: a type-scoped context that cannot be applied makes every path resolution into that node an error, at whatever position of "
+           "the type list the type stands (the harness probes all five resolvers with contexts of 15 kinds at every position).",
     "C20": " interleaving_results_total (every load ends with a document or an error, never with neither, under every schedule) and interleaving_failing_url (a URL the origin does not serve is an error "
            "for every thread); the harness's bursts include failing URLs of six kinds.",
     "C08": " smt_resolver_failure_rejected: a resolver error (whatever document accompanies it) or an answer without state information is a rejection, also for the genesis state; the harness's resolver errors "
